@@ -1357,6 +1357,24 @@ func (x *Exec) evalBuiltinSpec(ce *CEnv, name string, args []Expr) (*Val, bool) 
 		}
 		x.declareUF("unbox_"+smt.Sanitize(so), []string{"Int"}, so)
 		return &Val{Typ: t, T: x.b.App("unbox_"+smt.Sanitize(so), so, ref)}, true
+	case "retype":
+		// retype(v, "I"): the interface value v seen through another interface type
+		// (an interface-to-interface assertion that is assumed to succeed)
+		v := x.eval(ce, args[0])
+		ts, ok := args[1].(*EString)
+		if !ok {
+			cfail("retype needs a string literal type")
+		}
+		t := x.prog.resolveType(x.pkgOf(ce), ts.V)
+		if t == nil {
+			cfail("cannot resolve type %s", ts.V)
+		}
+		if _, isI := t.Underlying().(*types.Interface); !isI {
+			cfail("retype: %s is not an interface type", ts.V)
+		}
+		nv := *v
+		nv.Typ = t
+		return &nv, true
 	case "dyntype":
 		// dyntype(v, "pkg.Type"): v's dynamic type tag equals that of the named type
 		v := x.eval(ce, args[0])
